@@ -15,11 +15,11 @@ CONSTANTS
   CompDeny = {}
   MaxDeny = 0
   ViaSet = {"manifest"}
-  StrategySet = {"serial", "parallel"}
+  StrategySet = {"serial"}
   WorkerSet = {"default"}
   CompressSet = {FALSE}
   AlphaSet = {"present", "absent"}
-  GammaSet = {"val", "crash"}
+  GammaSet = {"val"}
   Interleave = FALSE
   CfgMode = "documented"
   PersistMode = "documented"
